@@ -16,6 +16,7 @@ import (
 	"github.com/libp2p/go-libp2p/core/protocol"
 	ma "github.com/multiformats/go-multiaddr"
 
+	"github.com/LiskHQ/lisk-engine/pkg/log"
 	"github.com/LiskHQ/lisk-engine/pkg/p2p"
 	"github.com/LiskHQ/lisk-engine/pkg/verifrt/vsched"
 )
@@ -207,7 +208,7 @@ func NewFakeNet() *FakeNet {
 
 func (n *FakeNet) AddNode(name string, timeout time.Duration, handlers map[string]p2p.RPCHandler) *Endpoint {
 	ep := &Endpoint{ID: peer.ID(name), net: n, ctx: context.Background()}
-	mp, err := p2p.VerifNewMessageProtocol([]byte{1, 2, 3, 4}, "1.0", &fakeHost{ep: ep}, poolLogger, timeout)
+	mp, err := p2p.VerifNewMessageProtocol([]byte{1, 2, 3, 4}, "1.0", &fakeHost{ep: ep}, &recLogger{Logger: poolLogger, net: n}, timeout)
 	if err != nil {
 		panic(err)
 	}
@@ -335,8 +336,49 @@ func (sc P2PScenario) Body(timeout time.Duration) func() {
 			if lost := lostReply(net.Log, results[0]); lost != "" {
 				vsched.Fail(lost)
 			}
+			if lost := acceptedResponses(net.Log, results[0]); lost != "" && !sc.Ghost && !sc.Hung && !sc.DupRes { // a duplicated response may be accepted twice (after the requester took the first from the channel and before it unregistered): nothing is lost then
+				vsched.Fail(lost)
+			}
 		}
 	}
+}
+
+// recLogger notes in the event log what onResponse says about a response it could not hand over: the request ID is not
+// registered (any more), or the request's channel already holds a response.
+type recLogger struct {
+	log.Logger
+	net *FakeNet
+}
+
+func (l *recLogger) Warningf(msg string, others ...interface{}) {
+	switch {
+	case strings.Contains(msg, "unknown request ID"):
+		l.net.note("res-unknown")
+	case strings.Contains(msg, "Duplicate response"):
+		l.net.note("res-duplicate")
+	}
+	l.Logger.Warningf(msg, others...)
+}
+func (l *recLogger) With(kv ...interface{}) log.Logger { return l }
+
+// acceptedResponses counts the responses onResponse took for a registered request: those it processed minus those it
+// reported as unknown or duplicate. A response that was accepted is returned by the attempt it belongs to (the timeout path
+// drains the channel under the same lock), so a single request never has more than one, and has one exactly when it succeeds.
+func acceptedResponses(log []string, result string) string {
+	processed, refused := 0, 0
+	for _, e := range log {
+		switch {
+		case strings.HasPrefix(e, "res-delivered:"):
+			processed++
+		case e == "res-unknown" || e == "res-duplicate":
+			refused++
+		}
+	}
+	accepted := processed - refused
+	if accepted > 1 || (accepted == 1 && result != "ok") {
+		return fmt.Sprintf("lost-reply: onResponse accepted %d response(s) for registered attempts of one request, but the request ended with %q - an accepted response was not returned by its attempt (log %v)", accepted, result, log)
+	}
+	return ""
 }
 
 // lostReply inspects the event log of a single-requester run: an attempt whose response was handed to
